@@ -39,6 +39,11 @@ def main():
         meta["demo_with_patch"] = dict(exit=r1.returncode, tail=(r1.stdout + r1.stderr)[-400:])
         meta["confirmed"] = (r0.returncode == 0 and r1.returncode != 0 and meta["tests_failed_with_patch"] == 9)
         meta["checks"] = {}
+        try:  # keep the outcome of checks run earlier against this seed and not rerun now
+            old = json.load(open(f"/verif/seeded/{pid}/{name}/meta.json"))
+            meta["checks"] = {k: dict(v, earlier_run=True) for k, v in old.get("checks", {}).items() if k not in checks}
+        except Exception:
+            pass
         for c in checks:
             t0 = time.time()
             evd = wt + "_evidence"
@@ -57,7 +62,7 @@ def main():
         out = f"/verif/seeded/{pid}/{name}"
         os.makedirs(out, exist_ok=True)
         for f in ("patch.diff", "demo.py", "notes.md"):
-            if os.path.exists(os.path.join(src, f)):
+            if os.path.exists(os.path.join(src, f)) and os.path.abspath(src) != os.path.abspath(out):
                 shutil.copy(os.path.join(src, f), os.path.join(out, f))
         json.dump(meta, open(os.path.join(out, "meta.json"), "w"), indent=1)
         sh(f"git -C /repo worktree remove --force {wt}")
